@@ -25,7 +25,9 @@ Cfg(e)  == [ssrc |-> e.ssrc, fecssrc |-> e.fecssrc, fecpt |-> e.fecpt]
 K(e)    == Len(e.media)
 Reps(e) == IF e.kind = "enc" THEN e.out
            ELSE IF Len(e.out) > K(e) THEN SubSeq(e.out, K(e) + 1, Len(e.out)) ELSE <<>>
-Next0(e) == IF e.s \in DOMAIN nxt THEN nxt[e.s] ELSE -1        \* -1: the first repair number of a stream is free
+\* -1: the first repair number of a stream is free - also after the stream has been bound again (a new encoder)
+Next0(e) == IF "rebind" \in DOMAIN e /\ e.rebind THEN -1
+            ELSE IF e.s \in DOMAIN nxt THEN nxt[e.s] ELSE -1
 
 \* the set of failed clauses of event e (empty = the specification explains the event)
 Fails(e) ==
